@@ -47,6 +47,13 @@ impl DnsRecordDyn {
         ensures fresh(final(self).rec()), final(self).rec().ttl == other.rec().ttl, final(self).rec().created == other.rec().created,
             final(self).rec().entry == old(self).rec().entry, final(self).payload() == old(self).payload(),
     { unimplemented!() }
+    // the six impls are `&mut self.record`
+    #[verifier::external_body]
+    pub fn get_record_mut(&mut self) -> (r: &mut DnsRecord)
+        ensures *r == old(self).rec(), final(self).rec() == *final(r), final(self).payload() == old(self).payload(),
+    { unimplemented!() }
+    #[verifier::external_body]
+    pub fn get_record(&self) -> (r: &DnsRecord) ensures *r == self.rec() { unimplemented!() }
     #[verifier::external_body]
     pub fn matches(&self, other: &DnsRecordDyn) -> (r: bool) ensures r == self.matches_spec(other) { unimplemented!() }
     // `x.any().downcast_ref::<DnsAddress / DnsPointer>()` (dyn Any; assumed)
